@@ -35,8 +35,8 @@ func (prop) ID() string { return "C28" }
 func (prop) Rule() string {
 	return "two case families over a 6-node universe (real secp256k1 identities). Handler level (2/3 of cases): `node self nbrs book alpha ttl` then 6-30 ops " +
 		"req/resp (mostly honest-looking: one duplicate-free path ending in the sender, lengths dense around ttl; a smaller malformed stream: 0 or 2 paths, paths containing self, duplicates, over-long, empty), " +
-		"find, relay (conn-chain and plain), pgc, dump; alpha 1..3 in the message and as NeighborAlpha, ttl 2..5, utype 0/1/2 with underlay lists, scripted crypto/rand bytes for RandomSubset. " +
-		"Network level (1/3): `net n edges alpha ttl pub` with n=3..6 and a random connected graph (tree + extra edges: cycles, diamonds), then nfind/nrun(with drops)/nquiesce/nrelay; " +
+		"find, relay (conn-chain and plain), relayd (a relay whose handler runs a route discovery; a response - mostly from the predecessor or another neighbour, for the relay's target - is delivered while FindRoute waits), pgc, dump; alpha 1..3 in the message and as NeighborAlpha, ttl 2..5, utype 0/1/2 with underlay lists, scripted crypto/rand bytes for RandomSubset. " +
+		"Network level (1/3): `net n edges alpha ttl pub` with n=3..6 and a random connected graph (tree + extra edges: cycles, diamonds), then nfind/nrun(with drops)/nquiesce/nrelay (a discovery started by a relaying node is run to its answer inside the relay) and occasional nlink/nunlink; every 15th case is a churn scenario (a learned route S-P-X-T loses X-T, a new way via Y comes up, S relays to T); " +
 		"invariants checked on every table and every in-flight message after every scheduler step. Fixed regression cases first. " +
 		"Non-trivial: handler case with a node and >=3 delivered messages of which >=1 produced output, or network case with >=1 nfind and >=1 nquiesce; distinct by op-list hash."
 }
@@ -360,6 +360,44 @@ func genHandler(r *core.Rand, id string) core.Case {
 			}
 			l := r.Range(0, 3)
 			p := mkPath(l, from, r.Chance(10), false)
+			if r.Chance(55) {
+				// a relay that has to discover a route while relaying: the response that arrives meanwhile
+				// mostly comes from the predecessor (the learned route leads back onto the path) or another neighbour
+				var far []int // targets that are neither self nor a neighbour: the handler has to look at its table
+				for _, v := range others {
+					if !isNbr(v) {
+						far = append(far, v)
+					}
+				}
+				if len(far) > 0 && r.Chance(85) {
+					dest = far[r.Intn(len(far))]
+				}
+				rfrom := from
+				if r.Chance(50) {
+					rfrom = nbrs[r.Intn(len(nbrs))]
+				}
+				rdest := dest
+				if r.Chance(12) {
+					rdest = pickDest()
+				}
+				rl := r.Pick([]int{2, 2, 3, 3, ttl, ttl + 1})
+				rp := mkPath(rl, rfrom, r.Chance(6), r.Chance(6))
+				if len(rp) > 1 && r.Chance(85) {
+					rp[0] = rdest
+					for i := 1; i < len(rp)-1; i++ {
+						if rp[i] == rdest {
+							rp[i] = others[r.Intn(len(others))]
+						}
+					}
+				}
+				rps := [][]int{rp}
+				if r.Chance(10) {
+					rps = append(rps, mkPath(r.Range(1, ttl+1), rfrom, false, false))
+				}
+				c.Ops = append(c.Ops, fmt.Sprintf("relayd %s %d %d %s %s %d %d %d %s %s", kind, from, dest, pathStr(p), rndHex(r), rfrom, rdest, ut, pathsStr(rps), listStr(ul)))
+				delivered++
+				continue
+			}
 			c.Ops = append(c.Ops, fmt.Sprintf("relay %s %d %d %s %s", kind, from, dest, pathStr(p), rndHex(r)))
 		case x < 19:
 			c.Ops = append(c.Ops, "pgc")
@@ -419,12 +457,56 @@ func genNet(r *core.Rand, id string) core.Case {
 			c.Ops = append(c.Ops, fmt.Sprintf("nquiesce %d", r.Intn(1000)))
 			quiesce++
 		default:
+			if r.Chance(25) {
+				c.Ops = append(c.Ops, fmt.Sprintf("%s %d %d", []string{"nlink", "nunlink"}[r.Intn(2)], r.Intn(n), r.Intn(n)))
+			}
 			c.Ops = append(c.Ops, fmt.Sprintf("nrelay %d %d %d", r.Intn(n), r.Intn(n), r.Intn(1000)))
 		}
 	}
 	c.Ops = append(c.Ops, fmt.Sprintf("nquiesce %d", r.Intn(1000)), fmt.Sprintf("nrelay %d %d %d", r.Intn(n), r.Intn(n), r.Intn(1000)))
 	quiesce++
 	c.NT = finds >= 1 && quiesce >= 1
+	return c
+}
+
+// genChurn: a route is learned, then the topology changes under it and a relay has to discover a new
+// route while it is being relayed: S - P - X - T (plus random extra links that do not shorten S..T
+// below P), S discovers T; X-T goes down; a new way P - Y - T (or X - Y - T, S - Y - T) comes up; relays.
+func genChurn(r *core.Rand, id string) core.Case {
+	c := core.Case{ID: id}
+	n := r.Range(5, universe)
+	perm := shuffled(r, n)
+	S, P, X, T, Y := perm[0], perm[1], perm[2], perm[3], perm[4]
+	es := []string{fmt.Sprintf("%d-%d", S, P), fmt.Sprintf("%d-%d", P, X), fmt.Sprintf("%d-%d", X, T)}
+	if n == 6 && r.Chance(50) {
+		z := perm[5]
+		es = append(es, fmt.Sprintf("%d-%d", z, r.Pick([]int{S, P, X})))
+	}
+	if r.Chance(20) {
+		es = append(es, fmt.Sprintf("%d-%d", S, X))
+	}
+	var pub []int
+	for i := 0; i < n; i++ {
+		if r.Chance(75) {
+			pub = append(pub, i)
+		}
+	}
+	c.Ops = append(c.Ops, fmt.Sprintf("net %d %s %d %d %s", n, strings.Join(es, ","), r.Pick([]int{1, 2, 2, 3}), r.Pick([]int{4, 5, 6}), listStr(pub)))
+	c.Ops = append(c.Ops, fmt.Sprintf("nfind %d %d %s", S, T, rndHex(r)), fmt.Sprintf("nquiesce %d", r.Intn(1000)))
+	if r.Chance(30) {
+		c.Ops = append(c.Ops, fmt.Sprintf("nfind %d %d %s", P, T, rndHex(r)), fmt.Sprintf("nquiesce %d", r.Intn(1000)))
+	}
+	c.Ops = append(c.Ops, fmt.Sprintf("nunlink %d %d", X, T))
+	via := r.Pick([]int{P, P, P, X, S})
+	c.Ops = append(c.Ops, fmt.Sprintf("nlink %d %d", via, Y), fmt.Sprintf("nlink %d %d", Y, T))
+	for k := r.Range(1, 3); k > 0; k-- {
+		c.Ops = append(c.Ops, fmt.Sprintf("nrelay %d %d %d", r.Pick([]int{S, S, S, P}), T, r.Intn(1000)))
+		if r.Chance(40) {
+			c.Ops = append(c.Ops, fmt.Sprintf("nquiesce %d", r.Intn(1000)))
+		}
+	}
+	c.Ops = append(c.Ops, fmt.Sprintf("nquiesce %d", r.Intn(1000)), fmt.Sprintf("nrelay %d %d %d", S, T, r.Intn(1000)))
+	c.NT = true
 	return c
 }
 
@@ -441,12 +523,23 @@ func (prop) Gen(r *core.Rand, tier string) []core.Case {
 		{ID: "fix-ttl-boundary", NT: true, Ops: []string{"node 0 1:0,2:0 - 2 3", "req 1 5 2 0 3.4.1 - -", "req 1 5 2 0 2.3.4.1 - -", "resp 1 5 0 5.4.1 -", "resp 1 5 0 5.4.3.1 -", "resp 2 4 0 4.3.2|4.1.3.2 -", "dump"}},
 		{ID: "fix-stored-route-answer", NT: true, Ops: []string{"node 0 1:0,2:0 5 2 5", "resp 1 5 1 5.4.1 5", "req 2 5 2 1 3.2 - -", "req 2 5 2 0 4.2 - -", "req 2 5 2 1 2 - -", "dump"}},
 		{ID: "fix-relay", NT: true, Ops: []string{"node 0 1:0,2:0 - 2 5", "resp 1 5 0 5.4.1 -", "resp 2 5 0 5.3.2 -", "relay c 1 5 3.1 -", "relay p 2 5 2 -", "relay c 1 2 1 -", "relay c 1 4 1 -", "relay c 1 0 1 -", "dump"}},
-		{ID: "fix-nonode", NT: false, Ops: []string{"req 1 3 2 0 1 - -", "dump", "nrun 3 1 0", "find 2 -"}},
+		// a relay node without a usable route runs a discovery while relaying; the only route it learns leads
+		// back through its predecessor (1, on the path 2.1): it has to give up, not to forward to 1.  Then the
+		// same with a route through the fresh neighbour 3 (forwarded), a response for another target / a
+		// discarded response (FindRoute gives up), and a response that adds no route for the target.
+		{ID: "fix-relay-after-discovery", NT: true, Ops: []string{"node 0 1:0,3:0 - 2 5", "relayd c 1 5 2.1 - 1 5 1 5.4.1 -", "dump", "relayd p 1 5 2.1 - 1 5 0 5.2.1 -", "relayd c 1 5 2.1 - 3 5 1 5.4.3 5", "dump",
+			"relayd c 1 4 2.1 - 3 5 1 5.3 -", "relayd p 1 4 1 - 3 4 1 4.0.3 -", "relayd c 1 4 2.1 - 3 4 1 2.3 -", "dump", "relayd c 1 4 2.1 00 3 4 1 4.3|4.2.1 -", "relayd c 1 0 1 - 3 4 1 4.3 -", "relayd c 1 3 1 - 3 4 1 4.3 -", "dump"}},
+		{ID: "fix-nonode", NT: false, Ops: []string{"req 1 3 2 0 1 - -", "dump", "nrun 3 1 0", "find 2 -", "relayd c 1 5 2.1 - 1 5 1 5.4.1 -", "nlink 0 1", "nunlink 0 1", "relayd x 1 5 2.1 - 1 5 1 5.4.1 -", "relayd c 1 5 2.1 - 1 5 1 5.4.1"}},
 		{ID: "fix-net-diamond", NT: true, Ops: []string{"net 4 0-1,0-2,1-3,2-3 2 4 0,1,2,3", "nfind 0 3 -", "nquiesce 1", "nfind 1 2 -", "nrun 3 7 30", "nquiesce 2", "nrelay 0 3 5"}},
+		// S=0 - P=1 - X=2 - T=3, S discovers T; the link X-T goes down, Y=4 joins with P-Y-T; S relays to T: P still
+		// routes via X, X has to run a discovery while relaying and learns only a route through P (on the path)
+		{ID: "fix-net-relay-after-discovery", NT: true, Ops: []string{"net 5 0-1,1-2,2-3 2 6 0,1,2,3,4", "nfind 0 3 -", "nquiesce 1", "nunlink 2 3", "nlink 1 4", "nlink 4 3", "nrelay 0 3 1", "nrelay 0 3 2", "nquiesce 2", "nrelay 0 3 3"}},
 		{ID: "fix-net-ring", NT: true, Ops: []string{"net 6 0-1,1-2,2-3,3-4,4-5,0-5 2 6 0,2,4", "nfind 0 3 -", "nfind 3 0 0102", "nquiesce 3", "nfind 1 4 -", "nquiesce 4", "nrelay 0 3 1", "nrelay 2 5 2"}},
 	}
 	for i := 0; i < n; i++ {
-		if i%3 == 2 {
+		if i%15 == 14 {
+			cs = append(cs, genChurn(r, fmt.Sprintf("c%d", i)))
+		} else if i%3 == 2 {
 			cs = append(cs, genNet(r, fmt.Sprintf("n%d", i)))
 		} else {
 			cs = append(cs, genHandler(r, fmt.Sprintf("h%d", i)))
@@ -661,7 +754,7 @@ func (rn *runner) Step(ctx *core.Ctx, op []string) string {
 		rn.node = newSimNode(self, nb, cl, bk)
 		rn.dirty = false
 		return "ok"
-	case "net", "nfind", "nrun", "nquiesce", "nrelay":
+	case "net", "nfind", "nrun", "nquiesce", "nrelay", "nlink", "nunlink":
 		return rn.netStep(ctx, op)
 	}
 	if rn.node == nil {
@@ -803,6 +896,86 @@ func (rn *runner) Step(ctx *core.Ctx, op []string) string {
 		}
 		ctx.Annotate("n=" + strconv.Itoa(next))
 		return fmt.Sprintf("next=%d finds=%s", next, packetsStr(out))
+	case op[0] == "relayd" && len(op) == 11:
+		// relayd <c|p> <from> <dest> <path> <rnd> <rfrom> <rdest> <rutype> <rpaths> <rulist>: a relay request
+		// whose handler has to run a route discovery (no usable next hop); while FindRoute waits, the response
+		// `resp <rfrom> <rdest> <rutype> <rpaths> <rulist>` is delivered to onRouteResp; if it is a response for
+		// <dest> that is not discarded, FindRoute returns and the handler picks the next hop from what it has
+		// learned (second getNextHopRandom of GetNextHopRandomOrFind); otherwise FindRoute gives up.  If no
+		// discovery is started (a next hop is known, the target is a neighbour or self, nobody to ask) the
+		// response is not delivered.
+		from, e1 := strconv.Atoi(op[2])
+		dest, e2 := strconv.Atoi(op[3])
+		path, ok := parseList(op[4], ".")
+		rnd, e3 := core.UnHex(op[5])
+		rfrom, e4 := strconv.Atoi(op[6])
+		rdest, e6 := strconv.Atoi(op[7])
+		rut, e5 := strconv.Atoi(op[8])
+		rps, ok1 := parsePaths(op[9])
+		rul, ok2 := parseList(op[10], ",")
+		if (op[1] != "c" && op[1] != "p") || e1 != nil || e2 != nil || e3 != nil || e4 != nil || e5 != nil || e6 != nil || !ok || !ok1 || !ok2 ||
+			from < 0 || from >= universe || dest < 0 || dest >= universe || rfrom < 0 || rfrom >= universe || rdest < 0 || rdest >= universe {
+			return "bad-op"
+		}
+		rn.annotateCands(ctx, dest)
+		msg := &pb.RouteRelayReq{Src: ids[from].overlay.Bytes(), SrcMode: full.Bv.Bytes(), Dest: ids[dest].overlay.Bytes(),
+			ProtocolName: []byte("x"), ProtocolVersion: []byte("1"), StreamName: []byte("y"), Paths: itemsOf(path)}
+		name := routetab.StreamOnRelayConnChain
+		if op[1] == "p" {
+			name = routetab.StreamOnRelay
+		}
+		resp := &pb.RouteResp{Dest: ids[rdest].overlay.Bytes(), Paths: pbPaths(rps), UType: int32(rut), UList: pbUList(rul)}
+		n.str.take()
+		parked := false
+		withRand(rnd, func() {
+			parked = n.relayRun(name, from, msg, dest, n.expectForward(dest, rn.alpha), func() {
+				_ = n.deliver("onRouteResp", rfrom, resp)
+			})
+		})
+		out := decode(n.self, n.str.take())
+		if dest == n.self {
+			ctx.Annotate("n=-")
+			return "local"
+		}
+		if parked {
+			for _, p := range rps {
+				if len(p) <= rn.ttl && (hasDup(p) || contains(p, n.self)) {
+					rn.dirty = true
+				}
+			}
+		}
+		rn.handlerOracle(ctx, out, !rn.dirty, rps, false)
+		next := -1
+		for _, p := range out {
+			if p.kind == "C" || p.kind == "P" {
+				next = p.to
+				got := idxPath(p.relay.Paths)
+				want := append(append([]int(nil), path...), n.self)
+				if pathStr(got) != pathStr(want) {
+					ctx.Fail("relay-path-not-extended", "relayed path %v, expected %v", got, want)
+				}
+			}
+		}
+		if next >= 0 && next != dest && (contains(path, next) || next == n.self) {
+			if parked {
+				ctx.Fail("relay-revisit/after-discovery", "relay for %d with path %v: after a route discovery the stream is forwarded to %d, which is on its path", dest, path, next)
+			} else {
+				ctx.Fail("relay-revisit", "relay for %d with path %v forwarded to %d", dest, path, next)
+			}
+		}
+		if next >= 0 && !contains(n.nbrs, next) {
+			ctx.Fail("relay-to-non-neighbor", "relay forwarded to %d which is not connected", next)
+		}
+		d := 0
+		if parked {
+			d = 1
+		}
+		if next < 0 {
+			ctx.Annotate("n=-")
+			return fmt.Sprintf("next=- d=%d finds=%s", d, packetsStr(out))
+		}
+		ctx.Annotate("n=" + strconv.Itoa(next))
+		return fmt.Sprintf("next=%d d=%d finds=%s", next, d, packetsStr(out))
 	case op[0] == "pgc" && len(op) == 1:
 		n.svc.VerifPendingCalls().GcReqLog(0)
 		n.svc.VerifPendingCalls().GcResItems(0)
